@@ -11,8 +11,7 @@ package router
 // run   go test -vet=off -count=1 -run ZZC06IPVersion ./router/
 
 import (
-	"crypto/ed25519"
-	"crypto/rand"
+	"context"
 	"net/netip"
 	"testing"
 
@@ -57,19 +56,15 @@ type zzC06Node struct {
 func zzC06NewNode(t *testing.T, ip string, store config.Store) *zzC06Node {
 	t.Helper()
 
-	pub, priv, err := ed25519.GenerateKey(rand.Reader)
+	// a real self-certifying identity (sessions are only created from identities that prove their address)
+	id, _, err := m.GenerateRoutableAddress(context.Background(), []netip.Prefix{netip.MustParsePrefix("fd10::/12")}, nil, 0)
 	if err != nil {
 		t.Fatal(err)
 	}
+	_ = ip
 	inst := &zzC06Instance{
 		cfg: config.MakeTestConfig(store),
-		id: &m.Address{
-			PublicAddress: m.PublicAddress{
-				IP:        netip.MustParseAddr(ip),
-				PublicKey: pub,
-			},
-			PrivateKey: priv,
-		},
+		id:  id,
 		fb: frame.NewFrameBuilder(),
 		td: &tun.Device{
 			RecvRaw:   make(chan []byte, 100),
